@@ -544,20 +544,20 @@ Proof. destruct c, tr; vm_compute; repeat split; reflexivity. Qed.
 Lemma dec_signed_00 : dec_signed [0; 0] = 0%Z.
 Proof. vm_compute. reflexivity. Qed.
 
-Lemma parse_make_frame cd alg mid (c tr : bool) op payload body r :
+Lemma parse_frame_bytes cd alg mid (c tr : bool) op payload body r :
   blen payload < 4294967296 ->
   (if c then exists a, alg = Some a /\ exists x, spec_decompress cd a payload = Ok (body, x)
    else body = payload) ->
   reads (p_request mid op) body r ->
-  parse_frame cd alg mid (make_frame (frame_flags c tr) op payload)
+  parse_frame cd alg mid (frame_bytes (frame_flags c tr) op payload)
   = Ok (mkHeader 4 (frame_flags c tr) 0 op (blen payload), r).
 Proof.
-  intros Hlen Hbody Hr. unfold make_frame.
-  destruct (be4_split (blen payload mod 4294967296)) as (l1 & l2 & l3 & l4 & E).
+  intros Hlen Hbody Hr. unfold frame_bytes.
+  destruct (be4_split (blen payload)) as (l1 & l2 & l3 & l4 & E).
   rewrite E. cbn [app]. unfold parse_frame.
   change (4 =? 4) with true. cbn [negb].
-  rewrite <- E, be_eq, be_dec_enc_small by (apply N.mod_lt; discriminate).
-  rewrite N.mod_small by exact Hlen. rewrite N.eqb_refl. cbn [negb].
+  rewrite <- E, be_eq, be_dec_enc_small by exact Hlen.
+  rewrite N.eqb_refl. cbn [negb].
   destruct (frame_flags_bits c tr) as (H4 & H0 & _). rewrite H4, H0.
   specialize (Hr []). rewrite app_nil_r in Hr.
   destruct c.
@@ -565,27 +565,41 @@ Proof.
   - subst body. rewrite Hr, dec_signed_00. reflexivity.
 Qed.
 
-Lemma blen_make_frame fl op payload : blen (make_frame fl op payload) = 9 + blen payload.
+Lemma blen_frame_bytes fl op payload : blen (frame_bytes fl op payload) = 9 + blen payload.
 Proof.
-  unfold make_frame. rewrite !blen_app, blen_be. unfold blen. cbn [List.length]. lia.
+  unfold frame_bytes. rewrite !blen_app, blen_be. unfold blen. cbn [List.length]. lia.
 Qed.
-Lemma skipn9_make_frame fl op payload : skipn 9 (make_frame fl op payload) = payload.
+Lemma skipn9_frame_bytes fl op payload : skipn 9 (frame_bytes fl op payload) = payload.
 Proof.
-  unfold make_frame. destruct (be4_split (blen payload mod 4294967296)) as (a & b & c & d & E).
+  unfold frame_bytes. destruct (be4_split (blen payload)) as (a & b & c & d & E).
   rewrite E. reflexivity.
 Qed.
+(* make succeeds exactly when the payload fits the 32-bit length field *)
+Lemma make_frame_ok fl op payload f : make_frame fl op payload = Ok f ->
+  blen payload < 4294967296 /\ f = frame_bytes fl op payload.
+Proof.
+  unfold make_frame. destruct (blen payload <? 4294967296) eqn:E; [|discriminate].
+  intros H. inj H. apply N.ltb_lt in E. auto.
+Qed.
+Lemma make_frame_small fl op payload : blen payload < 4294967296 ->
+  make_frame fl op payload = Ok (frame_bytes fl op payload).
+Proof. intros H. unfold make_frame. apply N.ltb_lt in H. rewrite H. reflexivity. Qed.
+Lemma make_frame_big fl op payload : 4294967296 <= blen payload ->
+  make_frame fl op payload = Err (ErrBodyTooLong (blen payload)).
+Proof. intros H. unfold make_frame. apply N.ltb_ge in H. rewrite H. reflexivity. Qed.
 
 Theorem parse_encode cd alg tr r f mid :
   req_wf r -> mid_matches mid r ->
-  encode_request cd None tr r = Ok f -> blen f < 4294967296 + 9 ->
+  encode_request cd None tr r = Ok f ->
   parse_frame cd alg mid f
   = Ok (mkHeader 4 (if tr then 2 else 0) 0 (opcode r) (blen f - 9), r).
 Proof.
-  intros Hwf Hmid He Hlen. unfold encode_request in He.
-  destruct (serialize_request r) as [body|] eqn:Es; [|discriminate]. inj He.
-  rewrite blen_make_frame in Hlen |- *.
+  intros Hwf Hmid He. unfold encode_request in He.
+  destruct (serialize_request r) as [body|] eqn:Es; [|discriminate].
+  apply make_frame_ok in He as [Hlen ->].
+  rewrite blen_frame_bytes.
   replace (9 + blen body - 9) with (blen body) by lia.
-  rewrite (parse_make_frame cd alg mid false tr (opcode r) body body r); [reflexivity|lia|reflexivity|].
+  rewrite (parse_frame_bytes cd alg mid false tr (opcode r) body body r); [reflexivity|exact Hlen|reflexivity|].
   apply reads_request; assumption.
 Qed.
 
@@ -593,15 +607,16 @@ Theorem plain_body cd tr r f :
   encode_request cd None tr r = Ok f -> serialize_request r = Ok (skipn 9 f).
 Proof.
   unfold encode_request. destruct (serialize_request r) as [body|]; [|discriminate].
-  intros H. inj H. rewrite skipn9_make_frame. reflexivity.
+  intros H. apply make_frame_ok in H as [_ ->]. rewrite skipn9_frame_bytes. reflexivity.
 Qed.
 
 Lemma spec_decompress_ok cd alg body payload :
-  codec_ok cd -> blen body < 4294967296 -> compress_append cd alg body = Ok payload ->
+  codec_ok cd -> compress_append cd alg body = Ok payload ->
   spec_decompress cd alg payload = Ok (body, []) /\ decompress cd alg payload = Some body.
 Proof.
-  intros [Hl Hs] Hlen Hc. destruct alg; cbn [compress_append] in Hc.
-  - inj Hc. rewrite N.mod_small by exact Hlen. split.
+  intros [Hl Hs] Hc. destruct alg; cbn [compress_append] in Hc.
+  - destruct (blen body <? 4294967296) eqn:Hlen; [|discriminate]. apply N.ltb_lt in Hlen.
+    inj Hc. split.
     + cbn [spec_decompress]. unfold rthen.
       rewrite (reads_take (be 4 (blen body)) 4 (blen_be 4 _)).
       rewrite be_eq, be_dec_enc_small by (cbn; lia). rewrite Hl. reflexivity.
@@ -616,20 +631,20 @@ Qed.
 Theorem compressed cd alg tr r f mid body :
   codec_ok cd -> req_wf r -> mid_matches mid r ->
   encode_request cd (Some alg) tr r = Ok f -> serialize_request r = Ok body ->
-  blen body < 4294967296 -> blen f < 4294967296 + 9 ->
   decompress cd alg (skipn 9 f) = Some body /\
   parse_frame cd (Some alg) mid f
   = Ok (mkHeader 4 (if tr then 3 else 1) 0 (opcode r) (blen f - 9), r).
 Proof.
-  intros Hcd Hwf Hmid He Hs Hb Hlen. unfold encode_request in He. rewrite Hs in He.
-  destruct (compress_append cd alg body) as [payload|] eqn:Ec; [|discriminate]. inj He.
-  rewrite blen_make_frame in Hlen |- *. rewrite skipn9_make_frame.
+  intros Hcd Hwf Hmid He Hs. unfold encode_request in He. rewrite Hs in He.
+  destruct (compress_append cd alg body) as [payload|] eqn:Ec; [|discriminate].
+  apply make_frame_ok in He as [Hlen ->].
+  rewrite blen_frame_bytes, skipn9_frame_bytes.
   replace (9 + blen payload - 9) with (blen payload) by lia.
-  destruct (spec_decompress_ok cd alg body payload Hcd Hb Ec) as [Hsd Hd].
+  destruct (spec_decompress_ok cd alg body payload Hcd Ec) as [Hsd Hd].
   split; [exact Hd|].
-  rewrite (parse_make_frame cd (Some alg) mid true tr (opcode r) payload body r).
+  rewrite (parse_frame_bytes cd (Some alg) mid true tr (opcode r) payload body r).
   - destruct tr; reflexivity.
-  - lia.
+  - exact Hlen.
   - exists alg. split; [reflexivity|]. eauto.
   - apply reads_request; assumption.
 Qed.
@@ -932,14 +947,13 @@ Proof. destruct r; cbn [mid_matches uses_mid]; trivial. Qed.
 
 Theorem encode_injective cd tr r1 r2 f :
   req_wf r1 -> req_wf r2 -> uses_mid r1 = uses_mid r2 ->
-  encode_request cd None tr r1 = Ok f -> encode_request cd None tr r2 = Ok f ->
-  blen f < 4294967296 + 9 -> r1 = r2.
+  encode_request cd None tr r1 = Ok f -> encode_request cd None tr r2 = Ok f -> r1 = r2.
 Proof.
-  intros W1 W2 Hm E1 E2 Hl.
-  pose proof (parse_encode cd None tr r1 f (uses_mid r1) W1 (mid_matches_self r1) E1 Hl) as P1.
+  intros W1 W2 Hm E1 E2.
+  pose proof (parse_encode cd None tr r1 f (uses_mid r1) W1 (mid_matches_self r1) E1) as P1.
   assert (M2 : mid_matches (uses_mid r1) r2).
   { destruct r2; cbn [mid_matches]; trivial. }
-  pose proof (parse_encode cd None tr r2 f (uses_mid r1) W2 M2 E2 Hl) as P2.
+  pose proof (parse_encode cd None tr r2 f (uses_mid r1) W2 M2 E2) as P2.
   rewrite P1 in P2. apply ok_inj in P2. injection P2. auto.
 Qed.
 
@@ -976,16 +990,56 @@ Proof.
 Qed.
 
 (* ---------- encode_request level restatements ---------- *)
-Theorem oversize_refused_frame cd c tr r : oversize r = true -> exists e, encode_request cd c tr r = Err e.
+Lemma body_too_long_spec r : body_too_long r = true <->
+  exists body, serialize_request r = Ok body /\ 4294967296 <= blen body.
 Proof.
-  intros H. apply oversize_refused in H as [e H]. unfold encode_request. rewrite H. eauto.
+  unfold body_too_long. destruct (serialize_request r) as [b|e].
+  - split.
+    + intros H. apply N.leb_le in H. eauto.
+    + intros (body & H & Hl). apply ok_inj in H. subst body. apply N.leb_le. exact Hl.
+  - split; [discriminate|]. intros (body & H & _). discriminate.
+Qed.
+
+(* a body that does not fit the length field is refused with its size (uncompressed and LZ4; with
+   Snappy the same check applies to the compressed payload: payload_too_long) *)
+Theorem body_too_long_class cd c tr r body :
+  serialize_request r = Ok body -> 4294967296 <= blen body -> c <> Some Snappy ->
+  encode_request cd c tr r = Err (ErrBodyTooLong (blen body)).
+Proof.
+  intros Hs Hl Hc. unfold encode_request. rewrite Hs.
+  destruct c as [[|]|]; [|congruence|].
+  - cbn [compress_append]. apply N.ltb_ge in Hl. rewrite Hl. reflexivity.
+  - apply make_frame_big, Hl.
+Qed.
+Theorem payload_too_long cd alg tr r body payload :
+  serialize_request r = Ok body -> compress_append cd alg body = Ok payload ->
+  4294967296 <= blen payload ->
+  encode_request cd (Some alg) tr r = Err (ErrBodyTooLong (blen payload)).
+Proof.
+  intros Hs Hc Hl. unfold encode_request. rewrite Hs, Hc. apply make_frame_big, Hl.
+Qed.
+
+Theorem oversize_refused_frame cd c tr r :
+  oversize r = true \/ (body_too_long r = true /\ c <> Some Snappy) ->
+  exists e, encode_request cd c tr r = Err e.
+Proof.
+  intros [H|[H Hc]].
+  - apply oversize_refused in H as [e H]. unfold encode_request. rewrite H. eauto.
+  - apply body_too_long_spec in H as (body & Hs & Hl).
+    rewrite (body_too_long_class cd c tr r body Hs Hl Hc). eauto.
 Qed.
 Theorem encode_total_frame cd tr r :
-  oversize r = false -> batch_counts_match r = true ->
-  (exists f, encode_request cd None tr r = Ok f) /\ (exists f, encode_request cd (Some Lz4) tr r = Ok f).
+  oversize r = false -> batch_counts_match r = true -> body_too_long r = false ->
+  (exists f, encode_request cd None tr r = Ok f) /\
+  (forall body, serialize_request r = Ok body -> 4 + blen (lz4_compress cd body) < 4294967296 ->
+     exists f, encode_request cd (Some Lz4) tr r = Ok f).
 Proof.
-  intros H1 H2. destruct (encode_total r H1 H2) as [body H]. unfold encode_request. rewrite H.
-  cbn [compress_append]. eauto.
+  intros H1 H2 H3. destruct (encode_total r H1 H2) as [body H]. unfold encode_request.
+  unfold body_too_long in H3. rewrite H in *. apply N.leb_gt in H3. split.
+  - rewrite (make_frame_small _ _ body H3). eauto.
+  - intros body' Hb Hc. apply ok_inj in Hb. subst body'. cbn [compress_append].
+    apply N.ltb_lt in H3. rewrite H3. rewrite make_frame_small; [eauto|].
+    rewrite blen_app, blen_be. exact Hc.
 Qed.
 Theorem batch_mismatch_frame cd cmp tr bt stmts vals c sc ts :
   oversize (Batch bt stmts vals c sc ts) = false -> List.length stmts <> List.length vals ->
@@ -1002,13 +1056,16 @@ Proof.
   intros H. destruct (batch_mismatch_refused bt stmts vals c sc ts H) as [e He].
   unfold encode_request. rewrite He. eauto.
 Qed.
+Lemma make_frame_not_bad fl op payload a b : make_frame fl op payload <> Err (ErrBadBatch a b).
+Proof. unfold make_frame. destruct (blen payload <? 4294967296); congruence. Qed.
 Theorem bad_batch_unreachable_frame cd cmp tr r a b : encode_request cd cmp tr r <> Err (ErrBadBatch a b).
 Proof.
   unfold encode_request. pose proof (bad_batch_unreachable r a b) as H.
   destruct (serialize_request r) as [body|e]; [|congruence].
-  destruct cmp as [alg|]; [|congruence].
-  destruct alg; cbn [compress_append]; [congruence|].
-  destruct (snap_compress cd body); congruence.
+  destruct cmp as [alg|]; [|apply make_frame_not_bad].
+  destruct alg; cbn [compress_append].
+  - destruct (blen body <? 4294967296); [apply make_frame_not_bad|congruence].
+  - destruct (snap_compress cd body); [apply make_frame_not_bad|congruence].
 Qed.
 
 (* ---------- the driver's boolean predicate means the property ---------- *)
@@ -1023,50 +1080,19 @@ Proof.
     first [apply N.eqb_eq; assumption | apply Z.eqb_eq; assumption].
 Qed.
 Theorem frame_says_complete cd tr r f :
-  req_wf r -> encode_request cd None tr r = Ok f -> blen f < 4294967296 + 9 ->
-  frame_says cd None tr r f = true.
+  req_wf r -> encode_request cd None tr r = Ok f -> frame_says cd None tr r f = true.
 Proof.
-  intros W E L. unfold frame_says.
-  rewrite (parse_encode cd None tr r f (uses_mid r) W (mid_matches_self r) E L).
+  intros W E. unfold frame_says.
+  rewrite (parse_encode cd None tr r f (uses_mid r) W (mid_matches_self r) E).
   cbn [h_version h_opcode h_length h_flags h_stream is_some].
   destruct (req_eq_dec r r) as [_|N]; [|congruence].
-  unfold encode_request in E. destruct (serialize_request r) as [body|]; [|discriminate]. inj E.
-  rewrite blen_make_frame. replace (9 + blen body - 9 + 9) with (9 + blen body) by lia.
+  unfold encode_request in E. destruct (serialize_request r) as [body|]; [|discriminate].
+  apply make_frame_ok in E as [_ ->].
+  rewrite blen_frame_bytes. replace (9 + blen body - 9 + 9) with (9 + blen body) by lia.
   rewrite !N.eqb_refl. destruct tr; reflexivity.
 Qed.
 
-(* ---------- the premise "body below 4 GiB" is necessary: `as u32` wraps ---------- *)
-Theorem len32_wraps cd big : blen big = 2147483647 ->
-  exists f, encode_request cd None false
-              (Query big (mkQP One None None None (Some big) false [CVal big])) = Ok f /\
-            parse_frame cd None false f = Err PBadLength.
-Proof.
-  intros Hb. unfold encode_request. cbn [serialize_request qp_values].
-  unfold mk_values. cbn [ser_cells ser_cell]. rewrite Hb.
-  change (2147483647 <? 2147483648) with true. cbv iota.
-  change (N.of_nat (List.length [CVal big]) <? 65536) with true. cbv iota.
-  unfold write_long_string, write_int_length. rewrite Hb.
-  change (2147483647 <? 2147483648) with true. cbv iota.
-  unfold ser_qparams. cbn [qp_paging qp_page_size qp_serial qp_timestamp qp_consistency qp_skip_metadata].
-  unfold write_bytes, write_int_length. rewrite Hb.
-  change (2147483647 <? 2147483648) with true. cbv iota.
-  change (negb (N.of_nat (List.length [CVal big]) =? 0)) with true. cbv iota.
-  eexists. split; [reflexivity|].
-  set (body := (be 4 2147483647 ++ big) ++ _).
-  assert (Hl : blen body = 6442450958).
-  { unfold body. rewrite !blen_app, !blen_be, Hb. unfold write_short. rewrite blen_be.
-    unfold blen. cbn [List.length]. lia. }
-  unfold make_frame.
-  destruct (be4_split (blen body mod 4294967296)) as (l1 & l2 & l3 & l4 & E).
-  rewrite E. cbn [app]. unfold parse_frame.
-  change (4 =? 4) with true. cbn [negb].
-  rewrite <- E, be_eq, be_dec_enc_small by (apply N.mod_lt; discriminate).
-  rewrite Hl. change (6442450958 mod 4294967296 =? 6442450958) with false. reflexivity.
-Qed.
-Lemma big_exists : blen (repeat 0 (N.to_nat 2147483647)) = 2147483647.
-Proof. unfold blen. rewrite repeat_length. apply N2Nat.id. Qed.
-
-(* ---------- the BATCH used by the 4 GiB reproducer ---------- *)
+(* ---------- bodies around 4 GiB: the uniform BATCH of the tie's `L` cases ---------- *)
 Lemma batch_loop_uniform text n : blen text < 2147483648 -> forall idx nser m,
   exists body, batch_loop idx nser m (repeat (SQuery text) n) (repeat [] n) = Ok (body, [], nser + N.of_nat n) /\
                blen body = N.of_nat n * (1 + 4 + blen text + 2).
@@ -1083,29 +1109,31 @@ Proof.
       rewrite !blen_app, Hr, blen_cons, blen_app, !blen_be, blen_nil. lia.
 Qed.
 
-Theorem len32_batch cd text n f :
+(* what make returns for that batch, as far as sizes go, is [uniform_batch_outcome]: a frame of
+   9 + size bytes whose length field is the size, or BodyTooLong(size) from 4 GiB on *)
+Theorem uniform_batch cd text n :
   blen text < 2147483648 -> N.of_nat n < 65536 ->
-  encode_request cd None false (Batch Logged (repeat (SQuery text) n) (repeat [] n) One None None) = Ok f ->
-  blen f = 9 + batch_body_len (N.of_nat n) (blen text) /\
-  be_dec (firstn 4 (skipn 5 f)) = header_len_field (batch_body_len (N.of_nat n) (blen text)).
+  match uniform_batch_outcome (N.of_nat n) (blen text) with
+  | Ok b => exists f, encode_request cd None false
+                        (Batch Logged (repeat (SQuery text) n) (repeat [] n) One None None) = Ok f /\
+                      blen f = 9 + b /\ be_dec (firstn 4 (skipn 5 f)) = b
+  | Err b => encode_request cd None false
+               (Batch Logged (repeat (SQuery text) n) (repeat [] n) One None None)
+             = Err (ErrBodyTooLong b) /\ 4294967296 <= b
+  end.
 Proof.
-  intros Ht Hn H. unfold encode_request in H. cbn [serialize_request] in H. unfold ser_batch in H.
-  rewrite repeat_length in H. apply N.ltb_lt in Hn. rewrite Hn in H.
-  destruct (batch_loop_uniform text n Ht 0 0 (N.of_nat n)) as (lb & Hl & Hb). rewrite Hl in H.
-  rewrite N.add_0_l, N.eqb_refl in H. cbn [is_some] in H. inj H.
+  intros Ht Hn. unfold encode_request. cbn [serialize_request]. unfold ser_batch.
+  rewrite repeat_length. apply N.ltb_lt in Hn. rewrite Hn.
+  destruct (batch_loop_uniform text n Ht 0 0 (N.of_nat n)) as (lb & Hl & Hb). rewrite Hl.
+  rewrite N.add_0_l, N.eqb_refl. cbn [is_some].
   set (body := [batch_type_code Logged] ++ _).
   assert (Hbody : blen body = batch_body_len (N.of_nat n) (blen text)).
   { unfold body, batch_body_len, write_short. rewrite !blen_app, Hb, !blen_be, !blen_cons, !blen_nil. lia. }
-  split.
-  - rewrite blen_make_frame, Hbody. reflexivity.
-  - unfold make_frame. destruct (be4_split (blen body mod 4294967296)) as (a & b & c & d & E).
-    rewrite E. cbn [app skipn firstn]. rewrite <- E, be_eq, be_dec_enc_small by (apply N.mod_lt; discriminate).
-    rewrite Hbody. reflexivity.
-Qed.
-
-Lemma len32_class_spec b : header_len_field b = b <-> len32_class b = false.
-Proof.
-  unfold header_len_field, len32_class. split; intros H.
-  - apply N.leb_gt. rewrite <- H. apply N.mod_lt. discriminate.
-  - apply N.leb_gt in H. apply N.mod_small. exact H.
+  unfold uniform_batch_outcome. rewrite <- Hbody.
+  destruct (blen body <? 4294967296) eqn:E.
+  - apply N.ltb_lt in E. rewrite (make_frame_small _ _ body E). eexists. split; [reflexivity|]. split.
+    + apply blen_frame_bytes.
+    + unfold frame_bytes. destruct (be4_split (blen body)) as (a & b & c & d & E4).
+      rewrite E4. cbn [app skipn firstn]. rewrite <- E4, be_eq. apply be_dec_enc_small. exact E.
+  - apply N.ltb_ge in E. split; [apply make_frame_big, E|exact E].
 Qed.
